@@ -52,9 +52,7 @@ Fixpoint zip_with {A B C} (f : A -> B -> C) (a : list A) (b : list B) : list C :
   end.
 
 Definition class_code (c : fclass) : Z :=
-  match c with
-  | CCopyStale => 1 | CCopyReuse => 2 | CMoveMaxUid => 3 | CRenameInbox => 4 | CSameSecond => 5
-  end.
+  match c with CSameSecond => 5 end.
 
 (** (index of the first step where model and implementation differ or -1,
      index of the first step in a finding class or -1, its class code or 0,
